@@ -1,10 +1,14 @@
 #!/venv/bin/python
-"""Install the round-6 minimal pairs (sub-agents uC01..uC20, /root/r6/<agent><A|B>[_ok]): breaking members into /verif/seeded/<prop>{J,K},
-their behaviour-preserving twins into /verif/seeded_equiv/<prop>U{A,B}.  First-pass results /root/r6res, final /root/r6res2."""
-import json, re, shutil, subprocess
+"""Install a round of minimal pairs written by sub-agents (/root/r<N>/<agent><A|B>[_ok]): breaking members into /verif/seeded/<prop><letter>,
+their behaviour-preserving twins into /verif/seeded_equiv/<prop><prefix>{A,B}.  First-pass results /root/r<N>res, final /root/r<N>res2.
+usage: install_r6.py [round]     round 6 (default): letters J,K / prefix U;  round 7: letters L,M / prefix V"""
+import json, re, shutil, subprocess, sys
 from pathlib import Path
 
 VERIF = Path("/verif")
+ROUND = int(sys.argv[1]) if len(sys.argv) > 1 else 6
+LETTERS, PREFIX = {6: ({"A": "J", "B": "K"}, "U"), 7: ({"A": "L", "B": "M"}, "V")}[ROUND]
+SRC, RES1, RES2 = Path(f"/root/r{ROUND}"), Path(f"/root/r{ROUND}res"), Path(f"/root/r{ROUND}res2")
 
 
 def parse_checks(p):
@@ -29,18 +33,18 @@ def props_for(patch, prop):
     return [f"C{x}" for x in pr]
 
 
-for d in sorted(Path("/root/r6").iterdir()):
+for d in sorted(SRC.iterdir()):
     L = d.name                      # uC07A / uC07A_ok
     prop, var, ok = L[1:4], L[4], L.endswith("_ok")
     meta_in = json.loads((d / "meta.json").read_text()) if (d / "meta.json").exists() else {}
-    det1, err1, _ = parse_checks(Path("/root/r6res") / f"{L}.checks")
-    det2, err2, first2 = parse_checks(Path("/root/r6res2") / f"{L}.checks")
+    det1, err1, _ = parse_checks(RES1 / f"{L}.checks")
+    det2, err2, first2 = parse_checks(RES2 / f"{L}.checks")
     if not ok:
-        sid = f"{prop}{ {'A': 'J', 'B': 'K'}[var] }"
-        conf = (Path("/root/r6res") / f"{L}.confirm").read_text(errors="replace")
+        sid = f"{prop}{LETTERS[var]}"
+        conf = (RES1 / f"{L}.confirm").read_text(errors="replace")
         tests = re.search(r"(\d+ passed[^\n]*)", conf)
         meta = {
-            "id": sid, "property": prop, "variant": sid[3], "round": 6, "twin": f"{prop}U{var}",
+            "id": sid, "property": prop, "variant": sid[3], "round": ROUND, "twin": f"{prop}{PREFIX}{var}",
             "summary": meta_in.get("summary", ""), "needs_to_manifest": meta_in.get("needs_to_manifest", ""),
             "origin": "breaking member of a minimal pair written by a fresh sub-agent that saw only the property record and its own scratch worktree",
             "confirmed_by_me": {
@@ -54,11 +58,11 @@ for d in sorted(Path("/root/r6").iterdir()):
         }
         out = VERIF / "seeded" / sid
     else:
-        sid = f"{prop}U{var}"
-        chk1 = (Path("/root/r6res") / f"{L}.checks").read_text(errors="replace") if (Path("/root/r6res") / f"{L}.checks").exists() else ""
+        sid = f"{prop}{PREFIX}{var}"
+        chk1 = (RES1 / f"{L}.checks").read_text(errors="replace") if (RES1 / f"{L}.checks").exists() else ""
         tests = re.search(r"(\d+ passed[^\n]*)", chk1)
         meta = {
-            "id": sid, "property": prop, "variant": var, "round": 6, "expect": "silent", "twin_of": f"{prop}{ {'A': 'J', 'B': 'K'}[var] }",
+            "id": sid, "property": prop, "variant": var, "round": ROUND, "expect": "silent", "twin_of": f"{prop}{LETTERS[var]}",
             "summary": meta_in.get("summary", ""),
             "origin": "behaviour-preserving member of a minimal pair (same place, same idiom as the breaking member, one expression differs), written by the same sub-agent",
             "confirmed_by_me": {"pinned_tests_with_change": tests.group(1) if tests else "", "demo_with_change_rc": 0 if "demo rc=0" in chk1 else None,
